@@ -53,6 +53,70 @@ def showFound (r : Option (Option (List (Nat × Nat)))) : String :=
   | some none => "ok -"
   | some (some l) => "ok [" ++ ",".intercalate ((sortPairs l).map fun (t, b) => s!"{t}>{b}") ++ "]"
 
+/-! ### arm tags (which model branches an op took) -/
+
+def fwdOf (s : Refs) (a : Nat) : List (Nat × Nat) := (s.fwd.get a).getD []
+def invOf (s : Refs) (b : Nat) : List Nat := (s.inv.get b).getD []
+
+def insArms (s : Refs) (a b t : Nat) : String :=
+  if a = b then "ins-self" else
+  (match s.fwd.get a with
+   | none => "ins-source-new"
+   | some l => if l.contains (t, b) then "ins-duplicate" else "ins-source-append") ++
+  (match s.inv.get b with
+   | none => ",ins-lookup-new"
+   | some l => if l.contains a then ",ins-lookup-present" else ",ins-lookup-append") ++
+  (if (fwdOf s b).any (fun r => r.2 == a) then ",ins-opposite-exists" else "") ++
+  (if t = hasSubtype then ",ins-hassubtype" else ",ins-plain")
+
+def delArms (s : Refs) (a b t : Nat) : String :=
+  match s.fwd.get a with
+  | none => "del-source-absent"
+  | some l =>
+    let hit := l.contains (t, b)
+    let others := (l.filter (fun r => r.2 == b && r.1 != t)).length
+    (if hit then "del-hit" else "del-miss") ++
+    (if hit && l.length = 1 then ",del-entry-emptied" else if hit then ",del-entry-kept" else "") ++
+    (if hit && others > 0 then ",del-target-still-referenced" else "") ++
+    (if hit && others = 0 then (if (invOf s b).length = 1 then ",del-lookup-emptied" else ",del-lookup-kept") else "") ++
+    (if (fwdOf s b).any (fun r => r.2 == a) then ",del-opposite-exists" else ",del-no-opposite")
+
+def delnArms (s : Refs) (n : Nat) (flag : Bool) : String :=
+  (if (s.fwd.get n).isSome then "deln-has-fwd" else "deln-no-fwd") ++
+  (if (s.inv.get n).isSome then ",deln-has-inv" else ",deln-no-inv") ++
+  (if flag then ",deln-flag-1" else ",deln-flag-0") ++
+  (if (fwdOf s n).any (fun r => (invOf s n).contains r.2) then ",deln-mutual" else "") ++
+  (if (invOf s n).any (fun x => (fwdOf s x).all (fun r => r.2 == n)) then ",deln-empties-source-entry" else "") ++
+  (if (fwdOf s n).any (fun r => (invOf s r.2).all (fun x => x == n)) then ",deln-empties-lookup-entry" else "")
+
+def filterTag (f : Filter) : String :=
+  match f with
+  | none => "nofilter"
+  | some (_, false) => "exact"
+  | some (_, true) => "subtypes"
+
+/-- depth at which `sub` is found below `ty` (0 = equal, 1 = direct subtype, 2 = deeper), by the
+model's own walk with small fuel -/
+def matchDepth (s : Refs) (ty sub : Nat) : String :=
+  if ty = sub then "equal"
+  else if (fwdOf s ty).contains (hasSubtype, sub) then "direct"
+  else match typeMatches s drvFuel ty sub true with
+    | some true => "indirect"
+    | some false => "none"
+    | none => "timeout"
+
+def findArms (dir : String) (s : Refs) (x : Nat) (f : Filter) (r : Option (Option (List (Nat × Nat)))) : String :=
+  let res := match r with
+    | none => "timeout"
+    | some none => "none"
+    | some (some l) => if l.length = 1 then "one" else "many"
+  let viaSub := match f, r with
+    | some (ty, true), some (some l) => if l.any (fun p => p.1 != ty) then s!",{dir}-found-via-subtype" else ""
+    | _, _ => ""
+  let entry := if dir = "fwd" then (if (s.fwd.get x).isSome then ",fwd-entry-present" else ",fwd-entry-absent")
+               else (if (s.inv.get x).isSome then ",inv-entry-present" else ",inv-entry-absent")
+  s!"{dir}-{filterTag f}-{res}" ++ viaSub ++ entry
+
 def dstep (s : Refs) (toks : List String) : Refs × String :=
   match toks with
   | ["reset"] => (empty, "ok")
@@ -60,38 +124,68 @@ def dstep (s : Refs) (toks : List String) : Refs × String :=
     match a.toNat?, b.toNat?, t.toNat? with
     | some a, some b, some t =>
       match insertRef s a b t with
-      | some s' => (s', "ok " ++ obs s')
-      | none => (s, "panic")
+      | some s' => (s', "ok " ++ obs s' ++ " @@ " ++ insArms s a b t)
+      | none => (s, "panic @@ ins-self")
     | _, _, _ => (s, "bad-op")
   | ["del", a, b, t] =>
     match a.toNat?, b.toNat?, t.toNat? with
     | some a, some b, some t =>
       let (s', d) := deleteRef s a b t
-      (s', s!"ok {boolStr d} " ++ obs s')
+      (s', s!"ok {boolStr d} " ++ obs s' ++ " @@ " ++ delArms s a b t)
     | _, _, _ => (s, "bad-op")
   | ["deln", n] =>
     match n.toNat? with
     | some n =>
       let (s', d) := deleteNodeRefs s n
-      (s', s!"ok {boolStr d} " ++ obs s')
+      (s', s!"ok {boolStr d} " ++ obs s' ++ " @@ " ++ delnArms s n d)
     | none => (s, "bad-op")
   | ["has", a, b, t] =>
     match a.toNat?, b.toNat?, t.toNat? with
-    | some a, some b, some t => (s, s!"ok {boolStr (hasRef s a b t)}")
+    | some a, some b, some t => (s, s!"ok {boolStr (hasRef s a b t)} @@ has-{boolStr (hasRef s a b t)}")
     | _, _, _ => (s, "bad-op")
   | ["fwd", a, f] =>
     match a.toNat?, parseFilter? f with
-    | some a, some f => (s, showFound (findRefs s drvFuel a f))
+    | some a, some f =>
+      let r := findRefs s drvFuel a f
+      (s, showFound r ++ " @@ " ++ findArms "fwd" s a f r)
     | _, _ => (s, "bad-op")
   | ["inv", b, f] =>
     match b.toNat?, parseFilter? f with
-    | some b, some f => (s, showFound (findInv s drvFuel b f))
+    | some b, some f =>
+      let r := findInv s drvFuel b f
+      (s, showFound r ++ " @@ " ++ findArms "inv" s b f r)
     | _, _ => (s, "bad-op")
+  | ["insd", src, node, t, inv] =>
+    match src.toNat?, node.toNat?, t.toNat?, parseBool? inv with
+    | some src, some node, some t, some inv =>
+      match insertMany s src [(node, t, inv)] with
+      | some s' => (s', "ok " ++ obs s' ++ " @@ " ++ (if inv then "insd-inverse," ++ insArms s node src t else "insd-forward," ++ insArms s src node t))
+      | none => (s, "panic @@ ins-self")
+    | _, _, _, _ => (s, "bad-op")
+  | ["bydir", n, d, f] =>
+    let dir : Option Dir := if d = "f" then some .forward else if d = "i" then some .inverse
+      else if d = "b" then some .both else if d = "x" then some .invalid else none
+    match n.toNat?, dir, parseFilter? f with
+    | some n, some dir, some f =>
+      match findByDirection s drvFuel n dir f with
+      | some (l, idx) =>
+        let show1 := fun (x : List (Nat × Nat)) => "[" ++ ",".intercalate ((sortPairs x).map fun (t, b) => s!"{t}>{b}") ++ "]"
+        (s, s!"ok {idx} {show1 (l.take idx)} {show1 (l.drop idx)} @@ bydir-{d}-{filterTag f}" ++
+          (if idx = 0 then ",bydir-fwd-empty" else ",bydir-fwd-some") ++
+          (if l.length = idx then ",bydir-inv-empty" else ",bydir-inv-some"))
+      | none => (s, "timeout")
+    | _, _, _ => (s, "bad-op")
+  | ["typeid", n] =>
+    match n.toNat? with
+    | some n => match getTypeId s n with
+      | some t => (s, s!"ok {t} @@ typeid-some")
+      | none => (s, "ok - @@ typeid-none")
+    | none => (s, "bad-op")
   | ["match", ty, sub, i] =>
     match ty.toNat?, sub.toNat?, parseBool? i with
     | some ty, some sub, some i =>
       match typeMatches s drvFuel ty sub i with
-      | some r => (s, s!"ok {boolStr r}")
+      | some r => (s, s!"ok {boolStr r} @@ match-{boolStr i}-{matchDepth s ty sub}")
       | none => (s, "timeout")
     | _, _, _ => (s, "bad-op")
   | _ => (s, "bad-op")
